@@ -1,124 +1,205 @@
 /-
   Props/C20 — "State sync rebuilds exactly the trusted state and stores nothing else".
 
-  All theorems are about `Model/C20.lean` (merkleBuilder.OnData/RequestData and the trie's
-  resolve), for an arbitrary hash function `H` and node decoder `refs` (`Cfg`), any trusted
-  root and **any** delivery history `vs : List Bytes` — requested, unrequested, forged,
-  duplicated, in any order.  Nothing is assumed about `H` except where a hypothesis says so.
+  All theorems are about `Model/C20.lean` (merkleBuilder.OnData/RequestData, the trie's resolve
+  and the values' Resolve), with explicit buckets: the store holds (bucket, key, value) entries, a
+  request is a key with the buckets of its requesters.  They hold for an arbitrary hash function
+  `H` and requester decoder `refs` (`Cfg`), any trusted root and **any** delivery history
+  `vs : List (Bkt × Bytes)` — requested, unrequested, forged, duplicated, for either bucket, in any
+  order.  Nothing is assumed about `H`/`refs` except where a hypothesis says so.
+
+  `Has store (b, k)`     bucket `b` of the store holds a value under key `k`
+  `Pending reqs (b, k)`  a requester of bucket `b` is registered on the outstanding request for `k`
+  `Reach cfg store root` what can be reached from the trie root (0, root) through stored payloads
+  `NoCrossSelfRef cfg`   no payload refers to its *own* hash in a bucket other than its own
+                         (such a payload would have to contain its own hash)
 -/
 import Goloop.Proofs.C20
 namespace Goloop.C20
 
-/-- Data whose hash is not an outstanding request is rejected and changes nothing at all. -/
-theorem unrequested_data_is_ignored (cfg : Cfg) (s : St) (v : Bytes) (h : cfg.H v ∉ s.reqs) :
-    onData cfg s v = (s, .noRequester) := by
-  rcases onData_cases cfg s v with ⟨_, he⟩ | ⟨hm, _, _⟩ | ⟨i, cs, hi, _, _⟩
+/-- Data whose hash is not the key of an outstanding request is rejected and changes nothing at
+    all, whatever bucket it is delivered for. -/
+theorem unrequested_data_is_ignored (cfg : Cfg) (s : St) (bid : Bkt) (v : Bytes)
+    (h : cfg.H v ∉ keys s.reqs) : onData cfg s bid v = (s, .noRequester) := by
+  rcases onData_cases cfg s bid v with ⟨_, he⟩ | ⟨r, hm, hk, _⟩
   · exact he
-  · exact absurd hm h
-  · exact absurd (List.mem_of_getElem? hi) h
+  · exact absurd (List.mem_map.mpr ⟨r, hm, hk⟩) h
 
-/-- One delivery stores at most the delivered payload, under its own hash, and only if that
-    hash was outstanding. -/
-theorem store_only_requested_step (cfg : Cfg) (s : St) (v : Bytes) :
-    (onData cfg s v).1.store = s.store ∨
-    ((onData cfg s v).1.store = (cfg.H v, v) :: s.store ∧ cfg.H v ∈ s.reqs) := by
-  rcases onData_cases cfg s v with ⟨_, he⟩ | ⟨hm, _, he⟩ | ⟨i, cs, hi, _, he⟩
-  · rw [he]; exact Or.inl rfl
-  · rw [he]; exact Or.inr ⟨rfl, hm⟩
-  · rw [he]; exact Or.inr ⟨rfl, List.mem_of_getElem? hi⟩
+/-- One delivery stores nothing but copies of the delivered payload, each under the payload's own
+    hash and only in a bucket whose requester was registered for that hash. -/
+theorem store_only_requested_step (cfg : Cfg) (s : St) (bid : Bkt) (v : Bytes) :
+    ∃ bs : List Bkt, (onData cfg s bid v).1.store = bs.map (fun b => (b, cfg.H v, v)) ++ s.store ∧
+      ∀ b ∈ bs, Pending s.reqs (b, cfg.H v) := by
+  rcases onData_cases cfg s bid v with ⟨_, he⟩ | ⟨r, hm, hk, _, ⟨_, he⟩ | ⟨_, he⟩⟩
+  · exact ⟨[], by rw [he]; rfl, by simp⟩
+  all_goals
+    obtain ⟨bs, hst, hb⟩ := serve_store cfg (cfg.H v) v r.bkts s.store
+      (s.reqs, some (s.reqs.findIdx (·.key == cfg.H v)))
+    exact ⟨bs, by rw [he]; exact hst, fun b hbm => ⟨r, hm, hk, hb b hbm⟩⟩
 
-/-- After any history starting from the trusted root with an empty store, every stored entry is
-    keyed by the hash of its value (so nothing can be planted under a foreign key). -/
-theorem store_only_hashed (cfg : Cfg) (root : Bytes) (vs : List Bytes) :
-    ∀ k v, (k, v) ∈ (runAll cfg (start {} (some root)) vs).store → k = cfg.H v :=
-  (inv_runAll cfg root vs _ (inv_start cfg root)).hashed
+/-- After any history starting from the trusted root with an empty store, every stored entry of
+    every bucket is keyed by the hash of its value (nothing can be planted under a foreign key). -/
+theorem store_only_hashed (cfg : Cfg) (hself : NoCrossSelfRef cfg) (root : Bytes)
+    (vs : List (Bkt × Bytes)) :
+    ∀ b k v, (b, k, v) ∈ (runAll cfg (start cfg {} (some root)) vs).store → k = cfg.H v :=
+  (inv_runAll cfg hself root vs _ (inv_start cfg root)).hashed
 
 /-- "No outstanding requests ⇒ the local store holds the complete state": whatever was delivered,
-    once `UnresolvedCount() = 0` every node reachable from the trusted root through stored
-    payloads is itself stored (the stored graph is closed). No assumption on `H`. -/
-theorem no_requests_implies_closed (cfg : Cfg) (root : Bytes) (vs : List Bytes)
-    (hz : (runAll cfg (start {} (some root)) vs).reqs = []) :
-    ∀ k, Reach cfg (runAll cfg (start {} (some root)) vs).store root k →
-      Has (runAll cfg (start {} (some root)) vs).store k :=
-  closed_of_no_requests cfg root _ (inv_runAll cfg root vs _ (inv_start cfg root)) hz
+    once `UnresolvedCount() = 0` every (bucket, key) reachable from the trusted root through
+    stored payloads is itself stored in that bucket (the stored graph is closed, per bucket).
+    No assumption on `H` besides `NoCrossSelfRef`. -/
+theorem no_requests_implies_closed (cfg : Cfg) (hself : NoCrossSelfRef cfg) (root : Bytes)
+    (vs : List (Bkt × Bytes)) (hz : (runAll cfg (start cfg {} (some root)) vs).reqs = []) :
+    ∀ p, Reach cfg (runAll cfg (start cfg {} (some root)) vs).store root p →
+      Has (runAll cfg (start cfg {} (some root)) vs).store p :=
+  closed_of_no_requests cfg root _ (inv_runAll cfg hself root vs _ (inv_start cfg root)) hz
 
-/-- With a trusted source `src` (closed, hashed, one value per key) and no hash collision between
-    a delivered payload and a source payload: the store never holds anything that is not in the
-    source (forged / unrequested data is never stored). -/
-theorem store_subset_of_source (cfg : Cfg) (src : List (Bytes × Bytes)) (root : Bytes)
-    (hs : Src cfg src root) (vs : List Bytes) (hnc : NoCollision cfg src vs) :
-    ∀ e, e ∈ (runAll cfg (start {} (some root)) vs).store → e ∈ src :=
-  (inv2_runAll cfg src root hs vs _ hnc (inv_start cfg root) (inv2_start cfg src root hs)).sub
+/-- With a trusted per-bucket source `src` (closed, hashed, one value per (bucket, key)) and no
+    hash collision between a delivered payload and a source payload: the store never holds an
+    entry that is not in the source — not a forged payload, and not a genuine payload in a bucket
+    where the source does not have it. -/
+theorem store_subset_of_source (cfg : Cfg) (hself : NoCrossSelfRef cfg) (src : List Entry)
+    (root : Bytes) (hs : Src cfg src root) (vs : List (Bkt × Bytes)) (hnc : NoCollision cfg src vs) :
+    ∀ e, e ∈ (runAll cfg (start cfg {} (some root)) vs).store → e ∈ src :=
+  (inv2_runAll cfg hself src root hs vs _ hnc (inv_start cfg root) (inv2_start cfg src root hs)).sub
 
-/-- Same hypotheses: there are no outstanding requests **exactly when** every node of the trusted
-    state (reachable from the root in the source) is stored. -/
-theorem unresolved_zero_iff_complete (cfg : Cfg) (src : List (Bytes × Bytes)) (root : Bytes)
-    (hs : Src cfg src root) (vs : List Bytes) (hnc : NoCollision cfg src vs) :
-    (runAll cfg (start {} (some root)) vs).reqs = [] ↔
-      ∀ k, Reach cfg src root k → Has (runAll cfg (start {} (some root)) vs).store k := by
-  have h1 := inv_runAll cfg root vs _ (inv_start cfg root)
-  have h2 := inv2_runAll cfg src root hs vs _ hnc (inv_start cfg root) (inv2_start cfg src root hs)
-  generalize runAll cfg (start {} (some root)) vs = s at h1 h2
+/-- Same hypotheses: there are no outstanding requests **exactly when** every (bucket, key) of the
+    trusted state (reachable from the root in the source) is stored in that bucket. -/
+theorem unresolved_zero_iff_complete (cfg : Cfg) (hself : NoCrossSelfRef cfg) (src : List Entry)
+    (root : Bytes) (hs : Src cfg src root) (vs : List (Bkt × Bytes)) (hnc : NoCollision cfg src vs) :
+    (runAll cfg (start cfg {} (some root)) vs).reqs = [] ↔
+      ∀ p, Reach cfg src root p → Has (runAll cfg (start cfg {} (some root)) vs).store p := by
+  have h1 := inv_runAll cfg hself root vs _ (inv_start cfg root)
+  have h2 := inv2_runAll cfg hself src root hs vs _ hnc (inv_start cfg root) (inv2_start cfg src root hs)
+  generalize runAll cfg (start cfg {} (some root)) vs = s at h1 h2
   constructor
-  · intro hz k r
+  · intro hz p r
+    have np : ∀ q, ¬ Pending s.reqs q := by
+      rintro q ⟨x, hx, _⟩; rw [hz] at hx; cases hx
     induction r with
-    | root => rcases h1.rootOk with h | h; exact h; rw [hz] at h; cases h
+    | root => rcases h1.rootOk with h | h; exact h; exact absurd h (np _)
     | step _ hm hr hc ih =>
       obtain ⟨w, hw⟩ := ih
-      have := hs.functional _ _ _ hm (h2.sub _ hw)
+      have := hs.functional _ _ _ _ hm (h2.sub _ hw)
       subst this
-      rcases h1.closed _ _ _ hw hr _ hc with h | h
+      rcases h1.closed _ _ _ _ hw hr _ hc with h | h
       · exact h
-      · rw [hz] at h; cases h
+      · exact absurd h (np _)
   · intro hc
     cases hr : s.reqs with
     | nil => rfl
-    | cons k ks =>
+    | cons x xs =>
       exfalso
-      have hk : k ∈ s.reqs := by rw [hr]; exact List.mem_cons_self
-      exact h2.disjoint k hk (hc k ((h2.reqReach k hk).mono h2.sub))
+      have hx : x ∈ s.reqs := by rw [hr]; exact List.mem_cons_self
+      obtain ⟨b, hb⟩ := List.exists_mem_of_ne_nil _ (h1.nonempty x hx)
+      have hp : Pending s.reqs (b, x.key) := ⟨x, hx, rfl, hb⟩
+      exact h2.disjoint _ hp (hc _ ((h2.reqReach _ hp).mono h2.sub))
 
 /-- Same hypotheses: when the sync ends (no outstanding requests) the rebuilt store contains, for
-    every node of the trusted state, exactly the source's payload — the rebuilt state *is* the
-    trusted state. -/
-theorem rebuilt_equals_source (cfg : Cfg) (src : List (Bytes × Bytes)) (root : Bytes)
-    (hs : Src cfg src root) (vs : List Bytes) (hnc : NoCollision cfg src vs)
-    (hz : (runAll cfg (start {} (some root)) vs).reqs = []) :
-    ∀ k, Reach cfg src root k → ∃ v, (k, v) ∈ src ∧ (k, v) ∈ (runAll cfg (start {} (some root)) vs).store := by
-  intro k r
-  obtain ⟨v, hv⟩ := (unresolved_zero_iff_complete cfg src root hs vs hnc).mp hz k r
-  exact ⟨v, store_subset_of_source cfg src root hs vs hnc _ hv, hv⟩
+    every (bucket, key) of the trusted state, exactly the source's payload in that bucket — the
+    rebuilt state *is* the trusted state. -/
+theorem rebuilt_equals_source (cfg : Cfg) (hself : NoCrossSelfRef cfg) (src : List Entry)
+    (root : Bytes) (hs : Src cfg src root) (vs : List (Bkt × Bytes)) (hnc : NoCollision cfg src vs)
+    (hz : (runAll cfg (start cfg {} (some root)) vs).reqs = []) :
+    ∀ b k, Reach cfg src root (b, k) →
+      ∃ v, (b, k, v) ∈ src ∧ (b, k, v) ∈ (runAll cfg (start cfg {} (some root)) vs).store := by
+  intro b k r
+  obtain ⟨v, hv⟩ := (unresolved_zero_iff_complete cfg hself src root hs vs hnc).mp hz _ r
+  exact ⟨v, store_subset_of_source cfg hself src root hs vs hnc _ hv, hv⟩
 
 /-- With a source and no collisions a delivered payload is never stored-but-undecodable:
     `OnData` answers only `ok` or `noRequester`. -/
-theorem never_decode_error (cfg : Cfg) (src : List (Bytes × Bytes)) (root : Bytes)
-    (hs : Src cfg src root) (vs : List Bytes) (v : Bytes) (hnc : NoCollision cfg src (vs ++ [v])) :
-    (onData cfg (runAll cfg (start {} (some root)) vs) v).2 ≠ .decodeError := by
+theorem never_decode_error (cfg : Cfg) (hself : NoCrossSelfRef cfg) (src : List Entry) (root : Bytes)
+    (hs : Src cfg src root) (vs : List (Bkt × Bytes)) (bid : Bkt) (v : Bytes)
+    (hnc : NoCollision cfg src (vs ++ [(bid, v)])) :
+    (onData cfg (runAll cfg (start cfg {} (some root)) vs) bid v).2 ≠ .decodeError := by
   have hnc1 : NoCollision cfg src vs := fun w hw => hnc w (List.mem_append.mpr (Or.inl hw))
-  have h1 := inv_runAll cfg root vs _ (inv_start cfg root)
-  have h2 := inv2_runAll cfg src root hs vs _ hnc1 (inv_start cfg root) (inv2_start cfg src root hs)
-  exact (inv2_onData cfg src root hs _ v (hnc v (List.mem_append.mpr (Or.inr (by simp)))) h1 h2).2
+  have h1 := inv_runAll cfg hself root vs _ (inv_start cfg root)
+  have h2 := inv2_runAll cfg hself src root hs vs _ hnc1 (inv_start cfg root) (inv2_start cfg src root hs)
+  exact (inv2_onData cfg src root hs _ bid v
+    (hnc (bid, v) (List.mem_append.mpr (Or.inr (by simp)))) h1 h2).2
 
-/-! ### non-vacuity: a two-node source with an identity-like toy hash -/
+/-! ### non-vacuity: a toy source in which one key is needed in both buckets
+
+  "hash" = first byte; a bucket-0 payload `k :: rest` names its children by the bytes of `rest`:
+  a byte `c < 100` is the bucket-0 child `[c]`, a byte `c ≥ 100` the bucket-1 blob `[c - 100]`
+  (unless that is the payload's own hash); bucket-1 payloads refer to nothing.  Root `[1,2,3]` has the children (0,[2]), (0,[3]); node
+  `[3,102]` refers to blob (1,[2]) whose bytes `[2]` are also the node (0,[2]). -/
+
+private def toyRef (v : Bytes) (c : UInt8) : Option Ref :=
+  if c < 100 then some (0, [c])
+  else if [c - 100] = v.take 1 then none      -- a payload cannot name its own hash
+  else some (1, [c - 100])
 
 private def toyCfg : Cfg :=
-  { H := fun v => v.take 1,                       -- "hash" = first byte
-    refs := fun v => some ((v.drop 1).map fun b => [b]) }   -- remaining bytes name the children
+  { H := fun v => v.take 1,
+    refs := fun b v => if b = 0 then some ((v.drop 1).filterMap (toyRef v)) else some [] }
 
-private def toySrc : List (Bytes × Bytes) := [([1], [1, 2]), ([2], [2])]
+private def toySrc : List Entry := [(0, [1], [1, 2, 3]), (0, [2], [2]), (0, [3], [3, 102]), (1, [2], [2])]
+
+example : NoCrossSelfRef toyCfg := by
+  intro b v ps h c hc hk
+  by_cases hb : b = 0
+  · subst hb
+    simp only [toyCfg, if_true, Option.some.injEq] at h
+    subst h
+    obtain ⟨x, _, hx⟩ := List.mem_filterMap.mp hc
+    unfold toyRef at hx
+    split at hx
+    · cases hx; rfl
+    · split at hx
+      · cases hx
+      · cases hx; rename_i hne; exact absurd hk hne
+  · simp only [toyCfg, hb, if_false, Option.some.injEq] at h
+    subst h; cases hc
 
 example : Src toyCfg toySrc [1] := by
-  refine ⟨?_, ?_, ?_, ⟨[1, 2], by simp [toySrc]⟩⟩
-  · intro k v h; simp [toySrc] at h; rcases h with ⟨rfl, rfl⟩ | ⟨rfl, rfl⟩ <;> rfl
-  · intro k v v' h h'; simp [toySrc] at h h'
-    rcases h with ⟨rfl, rfl⟩ | ⟨rfl, rfl⟩ <;> rcases h' with ⟨h1, rfl⟩ | ⟨h1, rfl⟩ <;> simp_all
-  · intro k v h; simp [toySrc] at h
-    rcases h with ⟨rfl, rfl⟩ | ⟨rfl, rfl⟩
-    · exact ⟨[[2]], rfl, by intro c hc; simp at hc; subst hc; exact ⟨[2], by simp [toySrc]⟩⟩
-    · exact ⟨[], rfl, by simp⟩
+  refine ⟨?_, ?_, ?_, ⟨[1, 2, 3], by simp [toySrc]⟩⟩
+  · intro b k v h; simp [toySrc] at h
+    rcases h with ⟨_, rfl, rfl⟩ | ⟨_, rfl, rfl⟩ | ⟨_, rfl, rfl⟩ | ⟨_, rfl, rfl⟩ <;> rfl
+  · intro b k v v' h h'; simp [toySrc] at h h'
+    rcases h with ⟨rfl, rfl, rfl⟩ | ⟨rfl, rfl, rfl⟩ | ⟨rfl, rfl, rfl⟩ | ⟨rfl, rfl, rfl⟩ <;>
+      simp at h' <;> exact h'.symm
+  · intro b k v h; simp [toySrc] at h
+    rcases h with ⟨rfl, rfl, rfl⟩ | ⟨rfl, rfl, rfl⟩ | ⟨rfl, rfl, rfl⟩ | ⟨rfl, rfl, rfl⟩
+    · exact ⟨[(0, [2]), (0, [3])], by decide, by
+        intro c hc; simp at hc
+        rcases hc with rfl | rfl
+        · exact ⟨[2], by simp [toySrc]⟩
+        · exact ⟨[3, 102], by simp [toySrc]⟩⟩
+    · exact ⟨[], by decide, by simp⟩
+    · exact ⟨[(1, [2])], by decide, by
+        intro c hc; simp at hc; subst hc; exact ⟨[2], by simp [toySrc]⟩⟩
+    · exact ⟨[], by decide, by simp⟩
 
-example : (runAll toyCfg (start {} (some [1])) [[9, 9], [2], [1, 2], [2]]).reqs = [] ∧
-    (runAll toyCfg (start {} (some [1])) [[9, 9], [2], [1, 2], [2]]).store = [([2], [2]), ([1], [1, 2])] := by
+/-- a history with forged data, a duplicate, and key `[2]` requested under both buckets
+    (node first, then blob) and served by one delivery into both -/
+example :
+    let s := runAll toyCfg (start toyCfg {} (some [1])) [(0, [9, 9]), (0, [1, 2, 3]), (1, [3, 102]), (1, [2]), (0, [2])]
+    s.reqs = [] ∧ s.resolved = 3 ∧
+      s.store = [(1, [2], [2]), (0, [2], [2]), (0, [3], [3, 102]), (0, [1], [1, 2, 3])] := by
+  decide
+
+/-- the same key requested under both buckets shows up as one request with two buckets -/
+example :
+    (runAll toyCfg (start toyCfg {} (some [1])) [(0, [1, 2, 3]), (0, [3, 102])]).reqs = [⟨[2], [0, 1]⟩] := by
+  decide
+
+/-- delivered before the blob reference is known, the key is requested and stored a second time -/
+example :
+    let s := runAll toyCfg (start toyCfg {} (some [1])) [(0, [1, 2, 3]), (0, [2]), (0, [3, 102])]
+    s.reqs = [⟨[2], [1]⟩] ∧ s.store = [(0, [3], [3, 102]), (0, [2], [2]), (0, [1], [1, 2, 3])] := by
+  decide
+
+/-- why `NoCrossSelfRef` is a hypothesis: with a decoder that lets payload `[1,101]` name its own
+    hash `[1]` as a blob, the blob's requester is appended to the very request being served and is
+    dropped with it (`range req.requesters` does not see it): no request is left, yet (1,[1]) is
+    referenced and not stored. -/
+example :
+    let cfg : Cfg := { H := fun v => v.take 1,
+                       refs := fun b v => if b = 0 then some ((v.drop 1).map fun c => (1, [c - 100])) else some [] }
+    let s := runAll cfg (start cfg {} (some [1])) [(0, [1, 101])]
+    s.reqs = [] ∧ s.store = [(0, [1], [1, 101])] := by
   decide
 
 end Goloop.C20
